@@ -133,10 +133,11 @@ BETWEEN += [(T_DATE,) * 3, (T_STR,) * 3]
 # total scalar functions: (name, argument types, result type)
 # 'small' marks integer arguments that must stay small (days, digits, widths)
 SMALL = 'small'
+DIGITS = 'digits'      # number of digits for round(): a small literal (round(x, 100) overflows the decimal context)
 UNIT = 'unit'
 FUNCS = [
     ('abs', (T_DEC,), T_DEC), ('neg', (T_DEC,), T_DEC),
-    ('round', (T_DEC,), T_DEC), ('round', (T_DEC, SMALL), T_DEC), ('round', (T_INT,), T_INT), ('round', (T_INT, SMALL), T_INT),
+    ('round', (T_DEC,), T_DEC), ('round', (T_DEC, DIGITS), T_DEC), ('round', (T_INT,), T_INT), ('round', (T_INT, DIGITS), T_INT),
     ('safediv', (T_DEC, T_DEC), T_DEC), ('safediv', (T_DEC, T_INT), T_DEC),
     ('length', (T_STR,), T_INT), ('upper', (T_STR,), T_STR), ('lower', (T_STR,), T_STR),
     ('substr', (T_STR, SMALL, SMALL), T_STR),
@@ -224,6 +225,9 @@ class ExprGen:
     def arg(self, t, depth):
         if t == SMALL:
             return self.small_int()
+        if t == DIGITS:
+            v = self.rng.choice([0, 1, 2, 3, 6, -1, -2])
+            return ir.lit(v, T_INT) if v >= 0 else ir.un('neg', ir.lit(-v, T_INT), T_INT)
         if t == UNIT:
             return ir.lit(self.rng.choice(UNITS + PART_UNITS + ['bogus']), T_STR)
         return self.expr(t, depth)
